@@ -446,8 +446,9 @@ class FD:
             # the platform the analysis (and the pinned suite) runs on: CPython of /venv, not Skulpt
             import sys as _sys
             return tuple(_sys.version_info) if d == 'sys.version_info' else _sys.platform
-        if d is not None and d.count('.') == 1 and d.split('.')[0] in ('re', 'math') and d.split('.')[0] not in env:
-            # plain constants of two stdlib modules (re.MULTILINE, math.inf): data, not code
+        if d is not None and d.count('.') == 1 and d.split('.')[0] in ('re', 'math', 'string') and \
+                d.split('.')[0] not in env:
+            # plain constants of a few stdlib modules (re.MULTILINE, math.inf, string.punctuation): data, not code
             import importlib
             v = getattr(importlib.import_module(d.split('.')[0]), e.attr, _MISSING)
             if isinstance(v, (int, float, str)):
